@@ -34,15 +34,18 @@ class Module:
             raise AnalysisError("cannot parse %s: %s" % (rel, e))
         self.name = rel[:-3].replace("/", ".")
         self.renamed_locals = 0
-        if not os.environ.get("ISOQLINT_NO_ALPHA"):
-            from . import alpha
-            self.renamed_locals = alpha.normalise_module(self.tree, rel)
         # parent links and qualified names
         self.functions = {}   # qualname -> FunctionDef
         self.classes = {}     # qualname -> ClassDef
         self.assigns = {}     # module-level name -> value node (last)
         self.imports = {}     # local name -> (module name, symbol or None)
         self.star_imports = []
+
+    def finish(self):
+        """Normalise local names against the reference snapshot and build the symbol index (after the project-wide rename pass)."""
+        if not os.environ.get("ISOQLINT_NO_ALPHA"):
+            from . import alpha
+            self.renamed_locals = alpha.normalise_module(self.tree, self.rel)
         self._index()
 
     def _index(self):
@@ -144,6 +147,12 @@ class Program:
                     cand = mod.replace(".", "/") + ".py"
                     if cand.startswith("src/") and cand not in self.modules:
                         todo.append(cand)
+        self.renamed_globals = {}
+        if not os.environ.get("ISOQLINT_NO_ALPHA"):
+            from . import globalnames
+            self.renamed_globals = globalnames.normalise({rel: m.tree for rel, m in self.modules.items()})
+        for m in self.modules.values():
+            m.finish()
         srcdir = os.path.join(self.root, "src")
         if os.path.isdir(srcdir):
             for fn in sorted(os.listdir(srcdir)):
